@@ -35,10 +35,14 @@ pub const F_PERMUTED: u32 = 1 << 7;
 pub const F_NO_DEAD_END: u32 = 1 << 8;
 pub const F_RECONVERGENT: u32 = 1 << 9; // few base states, no bonus, many ties
 pub const F_ABSORBING: u32 = 1 << 10; // absorbing base states (merged state equal to a kept one)
+/// deceptive instances: rewards 0..19, a large terminal reward reachable from base state 0 of the last layer only, the
+/// loose bound is the sum of the largest rewards of the remaining layers: the optimum is found late, the search keeps
+/// hundreds of open sub-problems, most of them invalidated by the cache before they are popped (long stale runs)
+pub const F_DECEPTIVE: u32 = 1 << 11;
 
 #[derive(Clone, PartialEq, Eq, Hash, Debug)]
 pub struct TState {
-    pub mask: u16,
+    pub mask: u64,
     pub bonus: isize,
     /// 255 when the state type does not embed the depth
     pub depth: u8,
@@ -64,6 +68,9 @@ pub struct TInst {
     /// oracle: value to go of base state s at depth l (bonus increments included)
     pub g: Vec<Vec<Option<isize>>>,
     pub gmax: Vec<Option<isize>>,
+    pub deceptive: bool,
+    /// sum over the remaining layers of the largest reward of the layer
+    pub suffix_max: Vec<isize>,
 }
 
 impl TInst {
@@ -75,15 +82,17 @@ impl TInst {
             SZ_GRID => (3, 2, 2, 1),
             SZ_TINY => (rng.range(3, 6) as usize, rng.range(2, 4) as usize, rng.range(2, 3) as usize, 4),
             SZ_SMALL => (rng.range(5, 9) as usize, rng.range(2, 5) as usize, rng.range(2, 3) as usize, 6),
+            SZ_LARGE if size & F_DECEPTIVE != 0 => (rng.range(24, 36) as usize, *rng.pick(&[16usize, 32, 32, 64]), rng.range(2, 3) as usize, 9),
             SZ_LARGE => (rng.range(18, 28) as usize, rng.range(10, 15) as usize, rng.range(2, 3) as usize, 9),
             _ => (rng.range(8, 12) as usize, rng.range(3, 6) as usize, rng.range(2, 4) as usize, 9),
         };
         let (s, c) = if reconv { (rng.range(2, 3) as usize, 2) } else { (s, c) };
-        let has_irr = size & F_IRRELEVANCE != 0;
-        let depth_in_state = !(has_irr || size & F_DEPTH_FREE != 0);
+        let deceptive = size & F_DECEPTIVE != 0;
+        let has_irr = size & F_IRRELEVANCE != 0 && !deceptive;
+        let depth_in_state = deceptive || !(has_irr || size & F_DEPTH_FREE != 0);
         // long arcs: skipping a variable must be equivalent to the neutral decision, hence no deferred bonus there
-        let no_bonus = size & F_NO_BONUS != 0 || reconv || has_irr;
-        let dead_den = if size & F_NO_DEAD_END != 0 { 0 } else { rng.range(0, 2) as u64 }; // 0: none, else prob 1/(4*den)
+        let no_bonus = size & F_NO_BONUS != 0 || reconv || has_irr || deceptive;
+        let dead_den = if size & F_NO_DEAD_END != 0 || deceptive { 0 } else { rng.range(0, 2) as u64 }; // 0: none, else prob 1/(4*den)
         let absorbing = size & F_ABSORBING != 0;
         let mut order: Vec<usize> = (0..l).collect();
         if size & F_PERMUTED != 0 { rng.shuffle(&mut order); }
@@ -106,14 +115,19 @@ impl TInst {
                     let mut nx = rng.usize(s);
                     if abs_state == Some(si) && rng.chance(3, 4) { nx = si; }
                     next[li][si][vi] = nx as i8;
-                    cost[li][si][vi] = rng.range(-(c as i64), c as i64) as isize;
+                    cost[li][si][vi] = if deceptive { rng.range(0, 19) as isize + if li + 1 == l && si == 0 { 100 } else { 0 } } else { rng.range(-(c as i64), c as i64) as isize };
                     if !no_bonus && rng.chance(1, 4) { bon[li][si][vi] = rng.range(1, 2) as isize; }
                 }
             }
         }
         let s0 = rng.usize(s);
         let v0 = rng.range(-3, 3) as isize;
-        let mut inst = TInst { l, s, d, order, pos, next, cost, bon, irr, s0, v0, depth_in_state, has_irr, variant, gen: (seed, size), g: vec![], gmax: vec![] };
+        let mut suffix_max = vec![0isize; l + 1];
+        for li in (0..l).rev() {
+            let mx = (0..s).flat_map(|si| (0..d).map(move |vi| (si, vi))).filter(|(si, vi)| next[li][*si][*vi] >= 0).map(|(si, vi)| cost[li][si][vi] + bon[li][si][vi]).max().unwrap_or(0);
+            suffix_max[li] = suffix_max[li + 1] + mx.max(0);
+        }
+        let mut inst = TInst { l, s, d, order, pos, next, cost, bon, irr, s0, v0, depth_in_state, has_irr, variant, gen: (seed, size), g: vec![], gmax: vec![], deceptive, suffix_max };
         inst.compute_oracle();
         inst
     }
@@ -145,8 +159,9 @@ impl TInst {
         self.gmax = gmax;
     }
     #[inline]
-    fn members(mask: u16) -> impl Iterator<Item = usize> {
-        (0..16usize).filter(move |i| mask & (1 << i) != 0)
+    fn members(mask: u64) -> impl Iterator<Item = usize> {
+        let mut m = mask;
+        std::iter::from_fn(move || if m == 0 { None } else { let i = m.trailing_zeros() as usize; m &= m - 1; Some(i) })
     }
     fn depth_byte(&self, d: usize) -> u8 { if self.depth_in_state { d as u8 } else { 255 } }
 
@@ -169,7 +184,7 @@ impl Problem for TInst {
     fn transition(&self, st: &TState, dec: Decision) -> TState {
         let li = self.pos[dec.variable.0];
         let v = dec.value as usize;
-        let mut mask = 0u16;
+        let mut mask = 0u64;
         let mut b = 0isize;
         for si in Self::members(st.mask) {
             let nx = self.next[li][si][v];
@@ -217,7 +232,7 @@ pub struct TRelax(pub Arc<TInst>);
 impl Relaxation for TRelax {
     type State = TState;
     fn merge(&self, states: &mut dyn Iterator<Item = &TState>) -> TState {
-        let mut mask = 0u16;
+        let mut mask = 0u64;
         let mut bonus = isize::MAX;
         let mut depth = 255u8;
         for s in states {
@@ -235,7 +250,9 @@ impl Relaxation for TRelax {
         match self.0.variant.rub {
             RubKind::None => isize::MAX,
             RubKind::Exact => self.0.score(st).unwrap_or(NEG),
-            RubKind::Slack(seed) => if seed % 2 == 1 {
+            RubKind::Slack(seed) => if self.0.deceptive && seed % 2 == 1 {
+                if self.0.score(st).is_none() { NEG } else { st.bonus + self.0.suffix_max[st.depth as usize] }
+            } else if seed % 2 == 1 {
                 // loose admissible bound: the best value to go of *any* base state (at this depth, or at any depth when unknown)
                 let best = |l: usize| self.0.g[l].iter().flatten().copied().max();
                 let b = if self.0.depth_in_state { best(st.depth as usize) } else { (0..=self.0.l).filter_map(best).max() };
